@@ -115,6 +115,11 @@ where
                                         }
                                         Tok::Lsqb => nesting += 1,
                                         Tok::Rsqb => nesting -= 1,
+                                        // Comments and non-logical newlines (only emitted with the
+                                        // `full-lexer` feature) are invisible to the parser and
+                                        // must not end the look-ahead either.
+                                        #[cfg(feature = "full-lexer")]
+                                        Tok::Comment(_) | Tok::NonLogicalNewline => {}
                                         // Allow arbitrary content within brackets for now
                                         _ if nesting > 0 => {}
                                         // Exit if unexpected tokens are seen
